@@ -1463,7 +1463,7 @@ func checkSamplerWhole(c *Ctx, r *Report) {
 
 // S-TRANSFORMW: both point-transforming methods folded whole on concrete transforms and points.
 func checkTransformPointsWhole(c *Ctx, r *Report) {
-	r.Rule("S-TRANSFORMW", "PerspectiveTransform.TransformPoints (interleaved coordinates) and TransformPointsXY (two lists) folded whole, in float64, on four transforms - the identity, an affine one whose a33 is not 1 (what buildAdjoint and times produce: a13 = a23 = 0, a33 = 196), a projective one, a projective one with a negative a33 - and six points each: every point (x, y) becomes ((a11 x + a21 y + a31)/d, (a12 x + a22 y + a32)/d) with d = a13 x + a23 y + a33 (relative tolerance 1e-12), nothing else in the lists changes, and the two methods agree", 2)
+	r.Rule("S-TRANSFORMW", "PerspectiveTransform.TransformPoints (interleaved coordinates) and TransformPointsXY (two lists) folded whole, in float64, on four transforms - the identity, an affine one whose a33 is not 1 (what buildAdjoint and times produce: a13 = a23 = 0, a33 = 196), a projective one, a projective one with a negative a33 - and six points each: every point (x, y) becomes ((a11 x + a21 y + a31)/d, (a12 x + a22 y + a32)/d) with d = a13 x + a23 y + a33 (relative tolerance 1e-12), nothing else in the lists changes, and the two methods agree; PerspectiveTransform_QuadrilateralToQuadrilateral folded whole for pairs drawn from eight quadrilaterals (squares, parallelograms, two with exactly one of x0-x1+x2-x3 and y0-y1+y2-y3 zero, two general ones): the transform sends every source corner onto its destination corner and interior points where the composition of the two square-to-quadrilateral maps of the standard construction sends them (relative tolerance 1e-9)", 3)
 	transforms := [][9]float64{
 		{1, 0, 0, 0, 1, 0, 0, 0, 1},
 		{2744, -392, 980, 588, 1960, -2352, 0, 0, 196},
@@ -1552,4 +1552,88 @@ func checkTransformPointsWhole(c *Ctx, r *Report) {
 		}
 		reportFold(r, c, "S-TRANSFORMW", key, fd.Pos(), bad)
 	}
+	// the transform through four point pairs, built whole
+	if fd, p := c.funcDeclOf("common", "PerspectiveTransform_QuadrilateralToQuadrilateral"); fd == nil {
+		r.AnchorLost("S-TRANSFORMW", "common.PerspectiveTransform_QuadrilateralToQuadrilateral", "function not found")
+	} else {
+		key := "common.PerspectiveTransform_QuadrilateralToQuadrilateral/whole"
+		r.Analysed(key)
+		// Heckbert's construction, written out: unit square -> quadrilateral
+		s2q := func(q [8]float64) [9]float64 {
+			x0, y0, x1, y1, x2, y2, x3, y3 := q[0], q[1], q[2], q[3], q[4], q[5], q[6], q[7]
+			dx3, dy3 := x0-x1+x2-x3, y0-y1+y2-y3
+			if dx3 == 0 && dy3 == 0 {
+				return [9]float64{x1 - x0, x2 - x1, x0, y1 - y0, y2 - y1, y0, 0, 0, 1}
+			}
+			dx1, dx2, dy1, dy2 := x1-x2, x3-x2, y1-y2, y3-y2
+			den := dx1*dy2 - dx2*dy1
+			a13, a23 := (dx3*dy2-dx2*dy3)/den, (dx1*dy3-dx3*dy1)/den
+			return [9]float64{x1 - x0 + a13*x1, x3 - x0 + a23*x3, x0, y1 - y0 + a13*y1, y3 - y0 + a23*y3, y0, a13, a23, 1}
+		}
+		quads := [][8]float64{
+			{0, 0, 10, 0, 10, 10, 0, 10},                 // axis-aligned square
+			{3.5, 3.5, 17.5, 3.5, 17.5, 17.5, 3.5, 17.5}, // square off the origin
+			{2, 1, 12, 4, 9, 14, -1, 11},                 // rotated square (a parallelogram)
+			{0, 0, 8, 2, 11, 9, 3, 7},                    // sheared parallelogram
+			{0, 0, 10, 1, 12, 9, 2, 12},                  // dx3 == 0, dy3 != 0
+			{0, 0, 10, 0, 13, 9, 1, 9},                   // dy3 == 0, dx3 != 0
+			{1, 2, 20, 4, 17, 19, 3, 15},                 // general perspective
+			{0, 0, 30, 5, 22, 28, -4, 18},                // general perspective
+		}
+		bad := ""
+		for si, src := range quads {
+			for di, dst := range quads {
+				if bad != "" || (si+2*di)%3 == 1 {
+					continue
+				}
+				var args []*Val
+				for _, v := range src {
+					args = append(args, &Val{K: VFloat, F: v})
+				}
+				for _, v := range dst {
+					args = append(args, &Val{K: VFloat, F: v})
+				}
+				res, err := c.rpfCall(fd, p, args, &rpf{unroll: 16})
+				if err != nil {
+					bad = fmt.Sprintf("?quadrilaterals %d -> %d: %v", si, di, err)
+					break
+				}
+				if len(res) != 1 || res[0].K != VStruct {
+					bad = "the result is not a transform"
+					break
+				}
+				var t [9]float64
+				for i, n := range names {
+					f, ok := res[0].Fields[n]
+					if !ok {
+						bad = "?the transform has no coefficient " + n
+						break
+					}
+					t[i], _ = flt(f)
+				}
+				if bad != "" {
+					break
+				}
+				// every source corner onto its destination corner; interior points as the composition of the two
+				// Heckbert maps sends them (through the unit square)
+				fwdS, fwdD := s2q(src), s2q(dst)
+				for k := 0; k < 4 && bad == ""; k++ {
+					gx, gy := ref(t, src[2*k], src[2*k+1])
+					if !(math.Abs(gx-dst[2*k]) <= 1e-9*(1+math.Abs(dst[2*k])) && math.Abs(gy-dst[2*k+1]) <= 1e-9*(1+math.Abs(dst[2*k+1]))) {
+						bad = fmt.Sprintf("quadrilaterals %d -> %d: corner %d (%g, %g) is mapped to (%g, %g), expected (%g, %g)", si, di, k, src[2*k], src[2*k+1], gx, gy, dst[2*k], dst[2*k+1])
+					}
+				}
+				for _, uv := range [][2]float64{{0.5, 0.5}, {0.25, 0.75}, {0.9, 0.1}} {
+					sx, sy := ref(fwdS, uv[0], uv[1])
+					wx, wy := ref(fwdD, uv[0], uv[1])
+					gx, gy := ref(t, sx, sy)
+					if bad == "" && !(math.Abs(gx-wx) <= 1e-9*(1+math.Abs(wx)) && math.Abs(gy-wy) <= 1e-9*(1+math.Abs(wy))) {
+						bad = fmt.Sprintf("quadrilaterals %d -> %d: the point (%g, %g) is mapped to (%g, %g), the projective map through the four pairs gives (%g, %g)", si, di, sx, sy, gx, gy, wx, wy)
+					}
+				}
+			}
+		}
+		reportFold(r, c, "S-TRANSFORMW", key, fd.Pos(), bad)
+	}
+	r.DecidedBy("T-PERSP", "S-TRANSFORMW", "the transform built whole for parallelograms, quadrilaterals with exactly one of the two sums zero and general ones, and applied whole: corners and interior points")
 }
